@@ -48,7 +48,11 @@ def job_broadcast(job):
         if len(out['failures']) < 15:
             out['failures'].append(rec)
     for cfg in job['configs']:
-        alg = make_algebra(cfg)
+        try:
+            alg = make_algebra(cfg)
+        except Exception as _e:
+            out['failures'].append({'config': cfg, 'what': 'constructing an admissible algebra raised', 'error': type(_e).__name__ + ': ' + str(_e)[:150]})
+            continue
         out['configs'] += 1
         for it in range(cfg.get('random', 4)):
             ak, bk = rand_keys(rng, alg, 'sparse'), rand_keys(rng, alg, 'sparse')
@@ -161,7 +165,11 @@ def job_register(job):
     out = {'evaluations': 0, 'failures': [], 'samples': [], 'configs': 0}
     exprs = set()
     for cfg in job['configs']:
-        alg = make_algebra(cfg)
+        try:
+            alg = make_algebra(cfg)
+        except Exception as _e:
+            out['failures'].append({'config': cfg, 'what': 'constructing an admissible algebra raised', 'error': type(_e).__name__ + ': ' + str(_e)[:150]})
+            continue
         fr = O.Frame(alg)
         out['configs'] += 1
         todo = []
